@@ -1,7 +1,28 @@
 """C13: cookie escape / quoting tables evaluated from the live module objects."""
 import importlib
 
-from extract_lib import generator, lean_bool, lean_bytes, lean_list, write
+import ast
+import os
+
+from extract_lib import REPO, generator, lean_bool, lean_bytes, lean_list, lean_str, write
+
+def dump_cookie_path_safe():
+    """the `safe=` literal of the `quote(path, ...)` call inside `dump_cookie`, found by AST"""
+    tree = ast.parse(open(os.path.join(REPO, "src", "werkzeug", "http.py")).read())
+    for fn in ast.walk(tree):
+        if isinstance(fn, ast.FunctionDef) and fn.name == "dump_cookie":
+            hits = []
+            for node in ast.walk(fn):
+                if isinstance(node, ast.Call) and getattr(node.func, "id", getattr(node.func, "attr", None)) == "quote":
+                    if node.args and isinstance(node.args[0], ast.Name) and node.args[0].id == "path":
+                        for kw in node.keywords:
+                            if kw.arg == "safe":
+                                hits.append(ast.literal_eval(kw.value))
+            if len(hits) != 1:
+                raise RuntimeError(f"dump_cookie: expected exactly one quote(path, safe=<literal>) call, found {hits!r}")
+            return hits[0]
+    raise RuntimeError("dump_cookie not found")
+
 
 @generator("Cookie")
 def gen_cookie():
@@ -27,7 +48,11 @@ def gen_cookie():
         octal2.append(bool(m) and len(m.group(1)) == 3)
     spaces = [c for c in range(0x110000) if chr(c).isspace()]
     re_spaces = [c for c in range(0x110000) if __import__("re").fullmatch(r"\s", chr(c), __import__("re").ASCII)]
+    path_safe = dump_cookie_path_safe()
     body = f"""namespace Wz.Gen.Cookie
+
+/-- the `safe=` literal of `quote(path, safe=...)` in `dump_cookie` (collected from the AST) -/
+def pathSafe : String := {lean_str(path_safe)}
 
 /-- `_cookie_no_quote_re.fullmatch(chr c)` for c = 0..255. -/
 def noQuote : List Bool := {lean_list([lean_bool(b) for b in noq])}
